@@ -55,8 +55,13 @@ func HarnessC13Chain() {
 	mark := func(k int) fox.HandlerFunc {
 		return func(c fox.Context) { reached = k; c.Writer().WriteHeader(200 + k) }
 	}
+	// redirecting on trailing slashes router-wide, or (routeredir=1) only on the route that needs it
+	routeRedir := sym.ParamOr("routeredir", 0) == 1
 	opts = append(opts, fox.WithNoRouteHandler(mark(hkNoRoute)), fox.WithNoMethodHandler(mark(hkNoMethod)),
-		fox.WithOptionsHandler(mark(hkOptions)), fox.WithRedirectTrailingSlash(true))
+		fox.WithOptionsHandler(mark(hkOptions)))
+	if !routeRedir {
+		opts = append(opts, fox.WithRedirectTrailingSlash(true))
+	}
 	if withDefaults {
 		opts = append(opts, fox.DefaultOptions())
 	}
@@ -74,7 +79,12 @@ func HarnessC13Chain() {
 	if err != nil {
 		return
 	}
-	_, err = router.Handle("GET", "/t/", mark(hkRoute))
+	var tOpts []fox.RouteOption
+	if routeRedir {
+		tOpts = append(tOpts, fox.WithRedirectTrailingSlash(true))
+		sym.Cover("redirect enabled per route only")
+	}
+	_, err = router.Handle("GET", "/t/", mark(hkRoute), tOpts...)
 	sym.Assert(err == nil, "route registered")
 	// a route reached by ignoring a trailing slash is a route handler like any other
 	_, err = router.Handle("GET", "/i/", mark(hkRoute), append([]fox.RouteOption{fox.WithIgnoreTrailingSlash(true)}, ropts...)...)
